@@ -315,7 +315,7 @@ func runC04(c *core.Ctx) {
 	checkKeyScheme(c, "R4.7")
 	c.Rule("R4.8", "every counted chunk reply was read without error and token-compared in its iteration, or no hit follows (shared with C05)", 3)
 	c.Rule("R4.9", "once a chunk's token differs from the metadata token no hit is reachable (shared with C05)", 3)
-	c.Share(map[string]string{"R5.4": "R4.8", "R5.2": "R4.9", "R5.5": "R4.14"}, runC05)
+	c.Share(map[string]string{"R5.4": "R4.8", "R5.2": "R4.9", "R5.5": "R4.14", "R5.1": "R4.16"}, runC05)
 	c.Rule("R4.10", "a value handed to the consumer of a multi-key get lives in memory obtained during that key's iteration: it is not overwritten when the next key is read", 1)
 	checkFreshValueBuffers(c, "R4.10", relChunked)
 	c.Rule("R4.11", "append/prepend store the assembled value under the flags recorded in the metadata they read and under the command's own key", 1)
@@ -849,7 +849,22 @@ func checkFreshValueBuffers(c *core.Ctx, rule string, rels ...string) {
 			counts := map[string]int{}
 			ssax.Instrs(fn, func(ins ssa.Instruction) {
 				snd, ok := ins.(*ssa.Send)
-				if !ok || !hasField(snd.X.Type(), "Data") {
+				if !ok {
+					return
+				}
+				// the value travels in a Data field of what is sent, possibly one struct level down (the pool's
+				// response wraps a GetEResponse)
+				var path []string
+				if hasField(snd.X.Type(), "Data") {
+					path = []string{"Data"}
+				} else if st, isSt := snd.X.Type().Underlying().(*types.Struct); isSt {
+					for i := 0; i < st.NumFields(); i++ {
+						if hasField(st.Field(i).Type(), "Data") {
+							path = []string{st.Field(i).Name(), "Data"}
+						}
+					}
+				}
+				if path == nil {
 					return
 				}
 				loop := ssax.InnermostLoop(loops, snd.Block())
@@ -857,11 +872,14 @@ func checkFreshValueBuffers(c *core.Ctx, rule string, rels ...string) {
 					return
 				}
 				key := ordinalKey(counts, core.FuncName(fn)+"#value-buffer")
-				vals := fieldStoreVals(snd.X, "Data")
+				var vals []ssa.Value
+				if len(path) == 1 {
+					vals = fieldStoreVals(snd.X, "Data")
+				}
 				var bad []string
 				n := 0
 				if len(vals) == 0 {
-					bad, n = loopFresh(c, fn, loop, snd.X, "Data")
+					bad, n = loopFresh(c, fn, loop, snd.X, path...)
 				}
 				for _, v := range vals {
 					b, k := loopFresh(c, fn, loop, v)
@@ -969,6 +987,10 @@ func loopFresh(c *core.Ctx, fn *ssa.Function, loop *ssax.Loop, v ssa.Value, path
 	leaf := func(v ssa.Value, path ...string) {
 		for _, s := range pv.Sources(v, path...) {
 			n++
+			if s.Kind == "call" && isReaderView(s.Call) {
+				bad = append(bad, "a view into the reader's own buffer ("+short(ssax.CalleeName(s.Call))+", "+c.P.Pos(s.V.Pos())+"), overwritten by the next read")
+				continue
+			}
 			switch s.Kind {
 			case "const", "zero", "recv":
 				continue // a received value is the producer's responsibility
@@ -1016,6 +1038,10 @@ func loopFresh(c *core.Ctx, fn *ssa.Function, loop *ssax.Loop, v ssa.Value, path
 			walk(x.X)
 		case *ssa.MakeChan, *ssa.MakeSlice, *ssa.MakeMap, *ssa.Alloc, *ssa.Call:
 			n++
+			if call, isCall := x.(*ssa.Call); isCall && isReaderView(&call.Call) {
+				bad = append(bad, "a view into the reader's own buffer ("+short(ssax.CalleeName(&call.Call))+", "+c.P.Pos(call.Pos())+"), overwritten by the next read")
+				return
+			}
 			vi := x.(ssa.Instruction)
 			if !loop.Blocks[vi.Block()] {
 				bad = append(bad, "created before the loop ("+c.P.Pos(x.Pos())+")")
@@ -1026,4 +1052,15 @@ func loopFresh(c *core.Ctx, fn *ssa.Function, loop *ssax.Loop, v ssa.Value, path
 	}
 	walk(v)
 	return
+}
+
+// isReaderView: the call returns a slice that aliases a bufio.Reader's internal buffer.
+func isReaderView(cc *ssa.CallCommon) bool {
+	switch ssax.CalleeName(cc) {
+	case "(*bufio.Reader).Peek", "(*bufio.Reader).ReadSlice", "(*bufio.Reader).ReadLine",
+		"(*bufio.ReadWriter).Peek", "(*bufio.ReadWriter).ReadSlice", "(*bufio.ReadWriter).ReadLine",
+		"(bufio.ReadWriter).Peek", "(bufio.ReadWriter).ReadSlice", "(bufio.ReadWriter).ReadLine":
+		return true
+	}
+	return false
 }
